@@ -110,6 +110,15 @@ fn undo_private_renames(rel: &str, file: &mut syn::File) {
     });
 }
 
+/// names of the private functions of `rel` in the reviewed tree (refdata/private_fns.json); None if not listed
+fn reviewed_private_fn_names(rel: &str) -> Option<std::collections::BTreeSet<String>> {
+    let verif = std::env::var_os("VERIF_DIR")?;
+    let txt = std::fs::read_to_string(std::path::Path::new(&verif).join("refdata/private_fns.json")).ok()?;
+    let v: serde_json::Value = serde_json::from_str(&txt).ok()?;
+    let arr = v.get(rel)?.as_array()?;
+    Some(arr.iter().filter_map(|r| r.get(1)?.as_str().map(|s| s.to_string())).collect())
+}
+
 pub fn load(repo: &Path, rel: &str) -> Result<Src, String> {
     let p = repo.join(rel);
     let text = std::fs::read_to_string(&p).map_err(|e| format!("{}: {}", p.display(), e))?;
@@ -117,7 +126,8 @@ pub fn load(repo: &Path, rel: &str) -> Result<Src, String> {
     strip_tests(&mut file.items);
     undo_private_renames(rel, &mut file);
     if std::env::var("VERIF_NO_NORMALIZE").is_err() {
-        crate::normalize::normalize_file(&mut file);
+        let reviewed = reviewed_private_fn_names(rel);
+        crate::normalize::normalize_file_with(&mut file, reviewed.as_ref());
     }
     Ok(Src { rel: rel.to_string(), file, text })
 }
